@@ -235,11 +235,11 @@ class _ShapeList(list):
                 line = crtf_strings['polygon'].format(include, coord)
 
             elif shape.region_type == 'point':
-                if 'symbol' in shape.meta:
-                    line = crtf_strings['symbol'].format(
-                        include, *coord, symbol=shape.meta['symbol'])
-                else:
-                    line = crtf_strings['point'].format(include, *coord)
+                # CRTF has no "point" shape; a point is a symbol region
+                # (default symbol '.')
+                symbol = shape.meta.get('symbol', '.')
+                line = crtf_strings['symbol'].format(include, *coord,
+                                                     symbol=symbol)
 
             elif shape.region_type == 'ellipse':
                 coord[2:] = [x / 2 for x in coord[2:]]
